@@ -234,6 +234,7 @@ def _explore(out, tier, seed, facts, replay):
             elif r < 0.13:
                 bad = ["-T", "0"]
             if bad:
+                groups = [g for g in groups if g[0] != bad[0]]        # an option is given once: the last occurrence would win
                 groups.append(bad)
             listing = ["--list-times", "--list-locations"]
             items = [[n] for n in names] + groups + [[x] for x in listing]
@@ -264,6 +265,22 @@ def _explore(out, tier, seed, facts, replay):
                 nf += 1
                 if r3[0] != r1[0] or (r1[0] == "ok" and parse_list(r1[1]) != parse_list(r3[1])):
                     out.violation("config-inline", "reading %r through --config differs from giving it inline" % (groups[k],), {"argv_inline": argv1, "argv_config": argv3})
+            # several --config files, also directly after one another, in both orders
+            if len(groups) >= 2 and not bad:
+                k1, k2 = rng.sample(range(len(groups)), 2)
+                cfa, cfb = os.path.join(tmp, "c%d_a.cfg" % ci), os.path.join(tmp, "c%d_b.cfg" % ci)
+                open(cfa, "w").write(" ".join(groups[k1]) + "\n")
+                open(cfb, "w").write(" ".join(groups[k2]) + "\n")
+                rest = [t for j, g in enumerate(groups) if j not in (k1, k2) for t in g]
+                for cfgs in (["--config", cfa, "--config", cfb], ["--config", cfb, "--config", cfa]):
+                    argv4 = ["verif"] + names + rest + cfgs + listing
+                    r4 = run_cli(argv4)
+                    nf += 1
+                    if r4[0] != r1[0] or (r1[0] == "ok" and parse_list(r1[1]) != parse_list(r4[1])):
+                        out.violation("config-twice", "two --config files given one after the other (%r and %r) differ from the same options given inline"
+                                      % (groups[k1], groups[k2]), {"argv_inline": argv1, "argv_config": argv4,
+                                                                   "config_files": {os.path.basename(cfa): " ".join(groups[k1]), os.path.basename(cfb): " ".join(groups[k2])}})
+                        break
             if bad and r1[0] != "error":
                 out.violation("not-rejected:%s" % bad[0], "%r was not rejected with an error exit (%s)" % (bad, r1[0]), {"argv": argv1})
             # model prediction of the verified dimensions
@@ -275,12 +292,36 @@ def _explore(out, tier, seed, facts, replay):
             cdescr.append({"argv": argv2})
             if len(samples) < 3:
                 samples.append({"argv": [os.path.basename(a) if a.startswith(tmp) else a for a in argv2]})
+        # ---- --list-dates: YYYYMMDD HH:MM:SS of every verified time (also times that are not on the hour) --------
+        import datetime
+        fn = os.path.join(tmp, "dates.txt")
+        base = [1325376000, 1330559999, 951782400 + 6 * 3600 + 30 * 60, 1356998399, 1325376000 + 23 * 3600 + 59 * 60 + 59, 1341100800 + 45 * 60 + 7]
+        tl = sorted(set(rng.sample(base, 4) + [rng.randrange(946684800, 1893456000) for _ in range(4)]))
+        with open(fn, "w") as f:
+            f.write("unixtime leadtime location obs fcst\n")
+            for t in tl:
+                f.write("%d 0 1 1 2\n" % t)
+        r = run_cli(["verif", fn, "--list-dates"])
+        nf += 1
+        lines = [l.strip() for l in (r[1] if r[0] == "ok" else "").split("\n") if l.strip() and not l.startswith("\x1b")]
+        want = [datetime.datetime.utcfromtimestamp(t).strftime("%Y%m%d %H:%M:%S") for t in tl]
+        if r[0] != "ok" or lines != want:
+            out.violation("list-dates", "--list-dates on times %r prints %r, expected %r" % (tl, lines if r[0] == "ok" else r, want), {"times": tl})
+        cexprs.append("flat_map (fun t => let '(dt, hh, mm, ss) := date_clock t in [f_of_Z dt; f_of_Z hh; f_of_Z mm; f_of_Z ss]) [%s]%%Z" % "; ".join(str(t) for t in tl))
+        cexp.append(("dates", None))
+        cdescr.append({"argv": ["verif", "dates.txt", "--list-dates"], "dates_expected": [[int(w[:8]), int(w[9:11]), int(w[12:14]), int(w[15:17])] for w in lines] if r[0] == "ok" else None})
         cdis = []
         try:
-            got = common.coq_eval_float_lists("From Coq Require Import String ZArith QArith.\nFrom VF Require Import Base.Num Model.Data Model.DataQ Model.ParseNumbers Model.Cli.\nOpen Scope Z_scope.\nOpen Scope string_scope.",
+            got = common.coq_eval_float_lists("From Coq Require Import String ZArith QArith.\nFrom VF Require Import Base.Num Model.Data Model.Cal Model.DataQ Model.ParseNumbers Model.Cli.\nOpen Scope Z_scope.\nOpen Scope string_scope.",
                                               cexprs, "c13c_%d" % seed, chunk=10, float_scope=False, timeout=900)
             for g, e, d in zip(got, cexp, cdescr):
                 model_err = len(g) == 2 and g[0] == -7
+                if e[0] == "dates":
+                    want_d = d["dates_expected"]
+                    got_d = [[int(x) for x in g[i:i + 4]] for i in range(0, len(g), 4)]
+                    if want_d is not None and got_d != want_d:
+                        cdis.append({"case": d, "model": got_d, "implementation": want_d})
+                    continue
                 if e[0] == "exception":
                     continue
                 if e[0] == "error" or model_err:
